@@ -10,6 +10,9 @@ CONSTANTS
   QCap = 0
   Gating = FALSE
   QfRet = TRUE
+  Echo = "xml10"
+  PName = "exact"
+  Deep = "caught"
   LexG = "full"
 INVARIANT InvNoDroppedConnection
 CHECK_DEADLOCK FALSE
